@@ -104,8 +104,25 @@ def date_exprs(ref):
 
 
 def body(ch):
-    part = ch.pick('part', ('24h', '12h', 'oclock', 'date+time', 'other-cultures'))
+    part = ch.pick('part', ('24h', '12h', 'oclock', 'date+time', 'other-cultures', 'two-threads'))
     ref = REFS[0]
+    if part == 'two-threads':
+        # two callers recognising different clock times share the cached model: every schedule with <= 1 preemption, every
+        # call of a function of the time / datetime parsers and the merging modules being a scheduling point
+        import os
+        from vmc import env, sched
+        pair = ch.pick('pair', (('12 am', '21:45:10'), ('tomorrow at 7:40 pm', 'at 3:30')))
+        alone = {q: dt.run('en-us', q, ref) for q in pair}
+        plan, ex = sched.pick_and_run(ch, CFG.setdefault('counts', {}), pair, os.path.join(env.REPO, 'Python', 'libraries'),
+                                      ('files', ('base_time.py', 'base_datetime.py', 'base_merged.py', 'models.py')), 1,
+                                      [lambda q=pair[0]: dt.run('en-us', q, ref), lambda q=pair[1]: dt.run('en-us', q, ref)], chunk=60)
+        for tid, q in enumerate(pair):
+            got = ex.results[tid] if ex.errors[tid] is None else 'EXC ' + ex.errors[tid]
+            if got != alone[q]:
+                ch.fail('two-threads|differs-from-sequential', {'queries': pair, 'plan': plan, 'thread': tid, 'observed': got, 'alone': alone[q]})
+                return
+        ch.ok(case=(pair, tuple(map(tuple, plan))), outcome='two-threads', evals=2)
+        return
     if part == '24h':
         h = ch.pick('hour', range(24))
         m = ch.pick('minute', range(60))
